@@ -1,5 +1,6 @@
 import Driver.HTable
 import Driver.Mutex
+import Driver.Sched
 import Driver.Cond
 import Driver.Ledger
 import Driver.TQ
@@ -18,13 +19,17 @@ import Driver.UserPool
 import Driver.Barrier
 import Driver.Eventual
 import Driver.Future
+import Driver.WLPtr
+import Driver.RWLock
 
 def main (args : List String) : IO UInt32 := do
   match args with
   | ["htable"] => Driver.HTable.main; return 0
   | ["mutex"] => Driver.Mutex.main; return 0
+  | ["sched"] => Driver.Sched.main; return 0
   | ["cond"] => Driver.Cond.mainCond; return 0
   | ["waitlist"] => Driver.Cond.mainWl; return 0
+  | ["wlptr"] => Driver.WLPtr.main; return 0
   | ["ledger"] => Driver.Ledger.main; return 0
   | ["tq"] => Driver.TQ.mainTQ; return 0
   | ["pool", kind] => Driver.TQ.mainPool kind
@@ -44,4 +49,5 @@ def main (args : List String) : IO UInt32 := do
   | ["xbarrier"] => Driver.Barrier.xmain; return 0
   | ["eventual"] => Driver.Eventual.main; return 0
   | ["future"] => Driver.Future.main; return 0
+  | ["rwlock"] => Driver.RWLock.main; return 0
   | _ => IO.eprintln "usage: driver <model>  (htable)"; return 2
